@@ -22,7 +22,9 @@ RULE = ("Hypothesis draws a large structured operator (n in 1024..1300, so that 
         "A control measurement of A.to_dense() must register ~n^2*itemsize, otherwise the run is a harness error. Non-trivial: a "
         "linear-algebra entry point (not a bare product), a nested structure, or the algorithm argument omitted. A positive "
         "multiple of a PSD Kronecker operator is also called with Cholesky / Eigh (it inherits the declaration)."
-        " Further: D K D declared SelfAdjoint under pow(., -1) with Eigh / Eig.")
+        " Further: D K D declared SelfAdjoint under pow(., -1) with Eigh / Eig."
+        " Round 5: BlockDiag of 120 SelfAdjoint 6 x 6 blocks (n = 720), trace of a 30^4 Kronecker product; a"
+        " deterministic grid runs every (entry point, structure, algorithm argument) combination once.")
 ASSUMPTIONS = [
     "tracemalloc sees NumPy buffer allocations (it does: NumPy registers them); memory inside LAPACK work arrays is not seen",
     "calibration on the pinned tree: factor-wise paths peak at 0.1-7 units, densifying paths at >= 350 units, so the factor 16 has a wide margin on both sides",
